@@ -39,9 +39,14 @@ func (vr *TestDownstreamFragmentSizeRequest) Encode(e enc.Encoder) ([]byte, erro
 		return nil, err
 	}
 	hostname = append(hostname, enc.Base32Encoding.Encode(data.Bytes())...)
-	// whole groups of eight Base32 characters keep the name decodable; 'a' stands for zero bits
-	for i := 0; i+8 <= vr.Padding; i += 8 {
-		hostname = append(hostname, "aaaaaaaa"...)
+	// Fill up with 'a' (zero bits). The encoded size takes seven characters; Base32 without padding cannot
+	// end in a group of one, three or six characters, so give up at most one character to stay decodable.
+	padding := vr.Padding
+	for padding > 0 && ((7+padding)%8 == 1 || (7+padding)%8 == 3 || (7+padding)%8 == 6) {
+		padding--
+	}
+	for i := 0; i < padding; i++ {
+		hostname = append(hostname, 'a')
 	}
 	return hostname, nil
 }
